@@ -46,6 +46,8 @@ pub enum Class {
     SharedStorage,
     /// the worker process died (signal / abort)
     Crash,
+    /// placeholder class for a violation minimised in a triage sub-process (signature in `context`)
+    Triage,
     Unsupported,
 }
 impl Class {
@@ -73,6 +75,7 @@ impl Class {
             Class::RelaxedInvalid => "relaxed-invalid",
             Class::SharedStorage => "shared-storage",
             Class::Crash => "crash",
+            Class::Triage => "triage",
             Class::Unsupported => "unsupported",
         }
     }
@@ -106,6 +109,9 @@ impl Violation {
             VIA_UNCHECKED => "unchecked",
             _ => "erased",
         };
+        if self.class == Class::Triage {
+            return self.context.clone();
+        }
         if !self.context.is_empty() {
             return format!("{}/{}", self.class.name(), self.context);
         }
